@@ -1,7 +1,7 @@
 (* RbcBracha: the Bracha argument on the network model of RbcModel (C14): invariants of every schedule (fold_left gstep)
    giving agreement and integrity of the delivered values. *)
 From Coq Require Import ZArith List Bool Lia.
-From LT Require Import RbcModel RbcLemmas RbcOrder RbcStep RbcStep2 RbcAgreement.
+From LT Require Import RbcModel RbcLemmas RbcOrder RbcStep RbcStep2 RbcStep3 RbcAgreement.
 Import ListNotations.
 Local Open Scope Z_scope.
 
@@ -854,6 +854,162 @@ Proof.
   exists l, m. repeat split; auto; congruence.
 Qed.
 
+(* ==== third layer: totality of the agreed digest ========================================================== *)
+Notation pstep3 := (pstep3 n t toolong).
+Notation rcond := (rcond n t).
+
+Lemma gstep_cases3 : forall g e,
+  gstep g e = g \/
+  exists p st' out r offer,
+    hon p /\ qstep (gp g p) st' out r offer /\ pstep3 (gp g p) st' out offer /\
+    (forall l m, offer = Some (l, m) -> can_recv n byz g p l m = true) /\
+    gp (gstep g e) = updZ (gp g) p st' /\
+    gsent (gstep g e) = gsent g ++ tagged p out /\
+    glog (gstep g e) = glog g ++ log_of p r.
+Proof.
+  intros g e. destruct e; cbn [RbcModel.gstep].
+  - destruct (honest n byz p) eqn:Hp; auto. right. unfold broadcast.
+    set (s' := if fifo (gp g p) then sq (gp g p) + 1 else coin).
+    exists p, (set_sq (gp g p) s'), (to_all n (Msg (cur (gp g p)) p s' 1 m)), RNone, None.
+    split; [exact Hp|]. split; [|split; [|split; [discriminate|cbn; rewrite app_nil_r; auto]]].
+    + apply qstep_same; [repeat split|]. intros dst x I. apply in_to_all in I. subst. reflexivity.
+    + apply pstep3_same; auto. intros dst x I. apply in_to_all in I. subst. cbn. discriminate.
+  - destruct (honest n byz p && can_recv n byz g p l m) eqn:G; auto. right. apply andb_true_iff in G. destruct G as [Hp C].
+    eexists p, _, _, _, (Some (l, m)). split; [exact Hp|]. split; [apply pstep_qstep; apply (deliver_pstep n t H toolong skip)|].
+    split; [apply (deliver_pstep3 n t H toolong skip)|].
+    split; [intros l0 m0 E; inversion E; subst; exact C|]. cbn. auto.
+  - destruct (honest n byz p) eqn:Hp; auto. right.
+    eexists p, _, _, _, None. split; [exact Hp|]. split; [apply pstep_qstep; apply (deliver_pstep n t H toolong skip)|].
+    split; [apply (deliver_pstep3 n t H toolong skip)|].
+    split; [discriminate|]. cbn. auto.
+  - destruct (honest n byz p && can_recv n byz g p l m) eqn:G; auto. right. apply andb_true_iff in G. destruct G as [Hp C].
+    eexists p, _, _, _, (Some (l, m)). split; [exact Hp|].
+    split; [apply pstep_qstep; apply (deliver_from_pstep n t H toolong skip p (gp g p) i (Some (l, m)))|].
+    split; [apply (deliver_from_pstep3 n t H toolong skip p (gp g p) i (Some (l, m)))|].
+    split; [intros l0 m0 E; inversion E; subst; exact C|]. unfold apply_from.
+    destruct (snd (deliver_from n t skip H toolong p (gp g p) i (Some (l, m)))); cbn; auto.
+  - destruct (honest n byz p) eqn:Hp; auto. right.
+    eexists p, _, _, _, None. split; [exact Hp|].
+    split; [apply pstep_qstep; apply (deliver_from_pstep n t H toolong skip p (gp g p) i None)|].
+    split; [apply (deliver_from_pstep3 n t H toolong skip p (gp g p) i None)|].
+    split; [discriminate|]. unfold apply_from.
+    destruct (snd (deliver_from n t skip H toolong p (gp g p) i None)); cbn; auto.
+  - destruct (honest n byz p) eqn:Hp; auto. right.
+    exists p, (set_id (gp g p) id f), [], RNone, None. split; [exact Hp|].
+    split; [|split; [|split; [discriminate|cbn; rewrite !app_nil_r; auto]]].
+    + apply qstep_same; [unfold set_id; cbn; repeat split|intros ? ? []].
+    + apply pstep3_same; auto; intros ? ? [].
+  - destruct (honest n byz p) eqn:Hp; auto. right.
+    exists p, (recover_id (gp g p) id f), [], RNone, None. split; [exact Hp|].
+    split; [|split; [|split; [discriminate|cbn; rewrite !app_nil_r; auto]]].
+    + apply qstep_same; [unfold recover_id; destruct (recov (gp g p) id) as [[? ?]|]; cbn; repeat split|intros ? ? []].
+    + apply pstep3_same; try (unfold recover_id; destruct (recov (gp g p) id) as [[? ?]|]; reflexivity); intros ? ? [].
+  - destruct (honest n byz p) eqn:Hp; auto. right.
+    exists p, (unset_id (gp g p) f), [], RNone, None. split; [exact Hp|].
+    split; [|split; [|split; [discriminate|cbn; rewrite !app_nil_r; auto]]].
+    + apply qstep_same; [unfold unset_id; destruct (stack (gp g p)) as [|[[? ?] ?] ?]; cbn; repeat split|intros ? ? []].
+    + apply pstep3_same; try (unfold unset_id; destruct (stack (gp g p)) as [|[[? ?] ?] ?]; reflexivity); intros ? ? [].
+Qed.
+
+Definition sent_ready (g : gst) (l q : Z) (tg : tagT) (d : Z) : Prop :=
+  exists m, In (l, q, m) (gsent g) /\ mtag m = tg /\ m_act m = 3 /\ m_pay m = d.
+
+Definition G0 (g : gst) := forall q l tg, filt (gp g q) FReady l tg = true ->
+  byz l = true \/ exists m, In (l, q, m) (gsent g) /\ mtag m = tg /\ m_act m = 3.
+Definition G1 (g : gst) := forall l dst x, In (l, dst, x) (gsent g) -> m_act x = 3 -> forall i, 0 <= i < n -> In (l, i, x) (gsent g).
+Definition G2 (g : gst) := 0 < t -> forall q tg d, rcond (gp g q) tg d -> exists dst, sent_ready g q dst tg d.
+Definition G3 (g : gst) := forall q tg d, 2 * t + 1 <= rd (gp g q) tg d -> dbar (gp g q) tg <> None.
+Definition G4 (g : gst) := forall q tg d, toolong tg d = false ->
+  exists L, NoDup L /\ Z.of_nat (length L) = rd (gp g q) tg d /\
+    (forall l, In l L -> filt (gp g q) FReady l tg = true) /\
+    (forall l, filt (gp g q) FReady l tg = true -> byz l = false -> sent_ready g l q tg d -> In l L).
+Definition INV3 (g : gst) : Prop := G0 g /\ G1 g /\ G2 g /\ G3 g /\ G4 g.
+
+Section OneStep3.
+Variables (g g' : gst) (p : Z) (st' : pst) (out : list (Z * msg)) (r : dres) (offer : option (Z * msg)).
+Hypothesis Hp : hon p.
+Hypothesis Q : qstep (gp g p) st' out r offer.
+Hypothesis Q3 : pstep3 (gp g p) st' out offer.
+Hypothesis CR : forall l m, offer = Some (l, m) -> can_recv n byz g p l m = true.
+Hypothesis Egp : gp g' = updZ (gp g) p st'.
+Hypothesis Esent : gsent g' = gsent g ++ tagged p out.
+Hypothesis Ig' : INV g'.
+
+Let smono := sent_mono g g' p out Esent.
+Let scases := state_cases g g' p st' Egp.
+Let snew3 := snew g g' p out Esent.
+
+Lemma sent_ready_mono : forall l q tg d, sent_ready g l q tg d -> sent_ready g' l q tg d.
+Proof. intros l q tg d (m & I & E). exists m. split; auto. Qed.
+
+Lemma G0_step : G0 g -> G0 g'.
+Proof.
+  intros IH q l tg F. destruct (scases q) as [[-> E]|[N E]]; rewrite E in *.
+  - destruct (filt (gp g p) FReady l tg) eqn:F0.
+    + destruct (IH _ _ _ F0) as [Y|(m & I & X)]; auto. right. exists m. auto.
+    + destruct Q3 as (_ & _ & _ & _ & Fc). destruct (Fc _ _ F0 F) as (m & Eo & Tm & Am & _).
+      destruct (can_recv_spec g p l m (CR l m Eo)) as (_ & [Y|I]); auto. right. exists m. auto.
+  - destruct (IH _ _ _ F) as [Y|(m & I & X)]; auto. right. exists m. auto.
+Qed.
+
+Lemma G1_step : G1 g -> G1 g'.
+Proof.
+  intros IH l dst x I A i Ri. apply snew3 in I. destruct I as [I|[-> I]].
+  - apply smono. eapply IH; eauto.
+  - destruct Q3 as (Al & _). rewrite Esent. apply in_or_app. right. unfold tagged. apply in_map_iff.
+    exists (i, x). split; auto. eapply Al; eauto. apply range_in. exact Ri.
+Qed.
+
+Lemma G2_step : G2 g -> G2 g'.
+Proof.
+  intros IH T0 q tg d C. destruct (scases q) as [[-> E]|[N E]]; rewrite E in *.
+  - destruct Q3 as (_ & Tr & _). destruct (Tr T0 tg d C) as [C0|(dst & x & I & Tx & Ax & Px)].
+    + destruct (IH T0 _ _ _ C0) as (dst & S). exists dst. apply sent_ready_mono. exact S.
+    + exists dst, x. split; auto. rewrite Esent. apply in_or_app. right. unfold tagged. apply in_map_iff. exists (dst, x). auto.
+  - destruct (IH T0 _ _ _ C) as (dst & S). exists dst. apply sent_ready_mono. exact S.
+Qed.
+
+Lemma G3_step : G3 g -> G3 g'.
+Proof.
+  intros IH q tg d C. destruct (scases q) as [[-> E]|[N E]]; rewrite E in *; [|eapply IH; eauto].
+  destruct Q3 as (_ & _ & Dt & Dk & _). destruct (Dt tg d C) as [C0|X]; auto. apply Dk. eapply IH; eauto.
+Qed.
+
+Lemma G4_step : G0 g -> G4 g -> G4 g'.
+Proof.
+  intros I0 IH q tg d TL. destruct (scases q) as [[-> E]|[N E]]; rewrite E in *.
+  - destruct (IH p tg d TL) as (L & ND & Len & AF & AC).
+    pose proof Q as Q0. destruct Q0 as (Fm & _ & Cr & _).
+    pose proof Q3 as Q30. destruct Q30 as (_ & _ & _ & _ & Fc).
+    (* a peer whose filter is set after the step, not faulty, and that sent ready(tg,d): old filter -> already in L *)
+    assert (OLD : forall l, filt (gp g p) FReady l tg = true -> byz l = false -> sent_ready g' l p tg d -> In l L).
+    { intros l F0 Nb (m & Im & Tm & Am & Pm). apply AC; auto.
+      destruct (I0 _ _ _ F0) as [Y|(m0 & I0m & T0m & A0m)]; [congruence|].
+      exists m0. repeat split; auto. rewrite <- Pm.
+      eapply (ready_digest_unique g' Ig'); eauto. congruence. }
+    destruct (Cr tg d) as [Er|(l & m & Eo & Et & Ed & Am & F0 & Er & F1)].
+    + exists L. split; [exact ND|]. split; [congruence|]. split; [intros l I; apply Fm; auto|].
+      intros l F Nb S. destruct (filt (gp g p) FReady l tg) eqn:F0; [apply OLD; auto|].
+      exfalso. destruct (Fc _ _ F0 F) as (m & Eo & Tm & Am & C).
+      destruct (can_recv_spec g p l m (CR l m Eo)) as (_ & [Y|Im]); [congruence|].
+      destruct S as (m2 & Im2 & Tm2 & Am2 & Pm2).
+      assert (Pd : m_pay m = d).
+      { rewrite <- Pm2. eapply (ready_digest_unique g' Ig'); eauto. congruence. }
+      rewrite Pd in C. destruct C as [C|C]; [congruence|lia].
+    + exists (l :: L). split; [|split; [|split]].
+      * constructor; auto. intros I. apply AF in I. congruence.
+      * cbn [length]. lia.
+      * intros l0 [<-|I]; auto.
+      * intros l0 F Nb S. destruct (filt (gp g p) FReady l0 tg) eqn:F00; [right; apply OLD; auto|].
+        destruct (Fc _ _ F00 F) as (m' & Eo' & _). rewrite Eo in Eo'. inversion Eo'. left. auto.
+  - destruct (IH q tg d TL) as (L & ND & Len & AF & AC). exists L. split; [exact ND|]. split; [exact Len|]. split; [exact AF|].
+    intros l F Nb (m & Im & Tm & Am & Pm). apply AC; auto.
+    (* the filter was set by a ready that l really sent before; l sends one digest per tag *)
+    destruct (I0 _ _ _ F) as [Y|(m0 & I0m & T0m & A0m)]; [congruence|].
+    exists m0. repeat split; auto. rewrite <- Pm.
+    eapply (ready_digest_unique g' Ig'); eauto. congruence.
+Qed.
+End OneStep3.
 End Bracha.
 
 (* ---- the property statements with a collision-free digest hash ------------------------------------------- *)
